@@ -546,7 +546,7 @@ def run_shard(desc, tier):
             ranges = [None, "bytes=0-3", "bytes=0-5", "bytes=2-9", "bytes=0-0,5-6", "bytes=0-3,6-9", "bytes=5-4", "bytes=20-", "nonsense", "bytes=-0", "bytes=0-2,20-",
                       # header values are octets, not necessarily UTF-8 text
                       "bytes=0-3,caf\xe9", "\xff\xfe=0-1"]
-            for (size, p), dn, rng, method, chunk, ifr in itertools.product(((10, p), (0, p0)), NAMES, ranges, ("GET", "HEAD"), (None, 1, 2, 3, 4), (None, '"stale"', "", '"caf\xe9"', "\xff")):
+            for (size, p), dn, rng, method, chunk, ifr in itertools.product(((10, p), (0, p0)), NAMES, ranges, ("GET", "HEAD"), (None, 1, 2, 3, 4), (None, '"stale"', "", '"caf\xe9"', "\xff", "Fri, 01 Jan 2147483648 00:00:00 GMT", "Fri, 01 Jan " + "9" * 30 + " 00:00:00 GMT", "Sat, 31 Dec 0000 23:59:59 GMT", "Tue, 14 Nov 2023 22:13:20 +9999")):
                 if ifr is not None and (chunk not in (None, 3) or dn not in (None, "é.txt")):
                     continue
                 if size == 0 and (chunk not in (None, 1) or dn not in (None, "é.txt")):
